@@ -276,6 +276,9 @@ class Implementation(type):
                 if member.is_abstract and overload is None:
                     raise TypeError(f"No implementation provided for {member}.")
 
+        for key, member_list in members.items():
+            overload = overloads.get(key)
+
             if overload is not None:
                 for member in member_list:
                     for alias in aliases:
